@@ -36,6 +36,19 @@ def apply_edit(root, nodes, edit):
             n.parent = None
         _ = root.position
         t.value = np.array(t.value, copy=True) - 1.5
+    elif how == 'convert-terminal':
+        # a terminal turned into a function node through the public setters (type, name, children): from then on it denotes
+        # the operator applied to its new children, whatever array it held as a terminal
+        t.type = 'FUNCTION'
+        t.name = ['SUM', 'MUL', 'SUB'][edit.get('shift', 0) % 3]
+        k1 = L['Node'](name=0, type='TERMINAL', value=np.array(nodes[edit['t']].value if nodes[edit['t']].value is not None else [[0.5]], copy=True) * 0.25 + 0.5)
+        base_ = [n for n in nodes if n.type == 'TERMINAL' and n is not t]
+        k2 = L['Node'](name=1, type='TERMINAL', value=(np.array(base_[0].value, copy=True) if base_ else k1.value * 1.0) - 1.75)
+        t.left = k1
+        k1.parent = t
+        t.right = k2
+        k2.flag = False
+        k2.parent = t
     elif how == 'rename-op':
         # `name` is a public, settable attribute: a function node re-labelled with another operator of the same
         # arity denotes the new expression from then on
@@ -117,7 +130,7 @@ def check_tree(C, drv, root, shape, tag, edit=None):
     if tag != 'edited' and len(nodes) >= 3 and C.rng.random() < 0.5:
         terms = [i for i, n in enumerate(nodes) if n.type == 'TERMINAL']
         deep = [i for i, n in enumerate(nodes) if n.parent is not None and n.parent.parent is not None]
-        how = C.rng.choice(['new-value', 'in-place', 'rehang', 'no-parent-links', 'in-place', 'rename-op'])
+        how = C.rng.choice(['new-value', 'in-place', 'rehang', 'no-parent-links', 'in-place', 'rename-op', 'convert-terminal'])
         funcs = [i for i, n in enumerate(nodes) if n.type == 'FUNCTION']
         edit = dict(how=how, t=C.rng.choice(terms), d=C.rng.choice(deep) if deep else None, pre=rp,
                     f=C.rng.choice(funcs), shift=C.rng.randrange(3))
